@@ -115,8 +115,10 @@ impl EvaluatedDecisionTable {
         result.set_entry(&self.component_names[i], value.clone());
       }
       Value::Context(result)
+    } else if let Some(value) = evaluated_rule.output_entry_values.first() {
+      value.clone()
     } else {
-      evaluated_rule.output_entry_values[0].clone()
+      value_null!("decision table has no output")
     }
   }
   /// Returns a result composed from values taken from evaluated output entries.
@@ -220,7 +222,7 @@ impl EvaluatedDecisionTable {
     }
     let output_values = matching_rules
       .iter()
-      .map(|evaluated_rule| evaluated_rule.output_entry_values[0].clone())
+      .filter_map(|evaluated_rule| evaluated_rule.output_entry_values.first().cloned())
       .collect::<Vec<Value>>();
     dmntk_feel_evaluator::evaluate_sum(output_values)
   }
@@ -235,7 +237,7 @@ impl EvaluatedDecisionTable {
     }
     let output_values = matching_rules
       .iter()
-      .map(|evaluated_rule| evaluated_rule.output_entry_values[0].clone())
+      .filter_map(|evaluated_rule| evaluated_rule.output_entry_values.first().cloned())
       .collect::<Vec<Value>>();
     dmntk_feel_evaluator::evaluate_min(output_values)
   }
@@ -250,7 +252,7 @@ impl EvaluatedDecisionTable {
     }
     let output_values = matching_rules
       .iter()
-      .map(|evaluated_rule| evaluated_rule.output_entry_values[0].clone())
+      .filter_map(|evaluated_rule| evaluated_rule.output_entry_values.first().cloned())
       .collect::<Vec<Value>>();
     dmntk_feel_evaluator::evaluate_max(output_values)
   }
